@@ -428,7 +428,7 @@ def check(run):
     quick = run.tier == 'quick'
     run.rule = ('(A) all pairs of 9 query kinds (plain, top, sorted, distinct count, aggregate, unnest, update, runtime-failing, parse-failing) over tables of <= %d records: every interleaving explored by TLC; '
                 '(B) every schedule of chosen pairs (exhaustive: one terminal state per schedule of API events) and schedules sampled by tlc -simulate over all pairs, replayed with two real threads under a cooperative scheduler; '
-                'histories of <= 6 queries in one interpreter, the same query text (columns by name) over two column layouts in one interpreter, and single queries in fresh interpreters; non-trivial = schedule of >= 6 events in which both threads take steps' % (2 if quick else 3))
+                'histories of <= 6 queries in one interpreter, the same query text (columns by name) over two column layouts in one interpreter, single queries in fresh interpreters, and user-init-code histories (what the init code of one query defines is invisible to the next query and to a query running in another thread between two reads); non-trivial = schedule of >= 6 events in which both threads take steps' % (2 if quick else 3))
     run.assumptions = ['interleaving points are the iterator / writer calls (what the statement names)', 'Python port only: rbql-js keeps one module-global context (documented limitation)']
     d = tlcrun.new_scratch('c16')
     # (A) exhaustive interleavings without the history variable in the fingerprint
